@@ -21,13 +21,25 @@ from props import socklib as S
 SNDBUF, RCVBUF = 11, 12
 
 
-def send_scenario(name, tx, rx, transport, timeo, hwm, size, n, reader_start=2200, smallbuf=True):
+def send_scenario(name, tx, rx, transport, timeo, hwm, size, n, reader_start=2200, smallbuf=True, tx_binds=False, rcvtimeo=None):
     ep = S.endpoint(transport, name)
     txo = [S.i32(S.SNDHWM, hwm), S.i32(S.SNDTIMEO, timeo)] + ([S.i32(SNDBUF, 65536)] if smallbuf and transport == "tcp" else [])
     rxo = [S.i32(S.RCVHWM, hwm)] + ([S.i32(RCVBUF, 65536)] if smallbuf and transport == "tcp" else [])
     if tx == "DEALER":
         txo.append([S.ROUTING_ID, "str", "D"])
     mp = rx == "ROUTER"
+    if rcvtimeo is not None:
+        txo.append(S.i32(S.RCVTIMEO, rcvtimeo))      # must not leak into the send path
+    if tx_binds:
+        # the sender is the one that binds (an inproc binder keeps its own copy of the options)
+        return {"name": name, "deadline_ms": 90000, "meta": {"timeo": timeo, "hwm": hwm, "size": size, "kind": "send", "transport": transport},
+                "sockets": [{"name": "tx", "type": tx, "opts": txo}, {"name": "rx", "type": rx, "opts": rxo}],
+                "tasks": [{"name": "rx", "ops": [{"op": "barrier", "name": "go", "parties": 2}, {"op": "connect", "sock": "rx", "ep": "$ep"},
+                                                {"op": "sleep", "ms": reader_start}, {"op": "mark", "name": "reader_start"},
+                                                {"op": "recv_n", "sock": "rx", "n": n, "timeout_ms": 1500, "multipart": mp}]},
+                          {"name": "tx", "ops": [{"op": "bind", "sock": "tx", "ep": ep, "save": "ep"}, {"op": "barrier", "name": "go", "parties": 2}, {"op": "sleep", "ms": 400},
+                                                {"op": "send_n", "sock": "tx", "prefix": "a", "n": n, "sizes": [size], "max_errs": 3},
+                                                {"op": "mark", "name": "tx_done"}]}]}
     return {"name": name, "deadline_ms": 90000, "meta": {"timeo": timeo, "hwm": hwm, "size": size, "kind": "send", "transport": transport},
             "sockets": [{"name": "tx", "type": tx, "opts": txo}, {"name": "rx", "type": rx, "opts": rxo}],
             "tasks": [{"name": "rx", "ops": [{"op": "bind", "sock": "rx", "ep": ep, "save": "ep"}, {"op": "barrier", "name": "go", "parties": 2},
@@ -73,6 +85,11 @@ def run(ctx):
             scs.append(send_scenario("send-%s-%d-tcp" % (tx.lower(), timeo), tx, rx, "tcp", timeo, 4, 100000, 120))
     scs.append(send_scenario("send-push-0-ipc", "PUSH", "PULL", "ipc", 0, 4, 100000, 120))
     scs.append(send_scenario("send-push--1-inproc", "PUSH", "PULL", "inproc", -1, 4, 100000, 120))
+    # the sender binds, with a RCVTIMEO that differs from its SNDTIMEO
+    for (tx, rx) in [("PUSH", "PULL"), ("DEALER", "ROUTER")]:
+        for (timeo, rcvt) in [(0, -1), (300, -1), (-1, 0)]:
+            for tr in (["inproc", "tcp", "ipc"] if thorough else ["inproc"]):
+                scs.append(send_scenario("send-%s-binds-%d-%s" % (tx.lower(), timeo, tr), tx, rx, tr, timeo, 4, 100000, 60, tx_binds=True, rcvtimeo=rcvt))
     for hwm in ([1, 4, 32, 256] if thorough else [1, 32]):
         scs.append(send_scenario("bound-h%d-tcp" % hwm, "PUSH", "PULL", "tcp", -1, hwm, 100000, 4 * hwm + 150 if hwm < 100 else 1400))
     scs.append(send_scenario("bound-h8-small-tcp", "PUSH", "PULL", "tcp", -1, 8, 2000, 1500))
